@@ -189,6 +189,7 @@ func init() {
 			{Name: "flat-cas", Weight: 4, Fn: c01Profile("flat-cas")},
 			{Name: "hier-cas", Weight: 3, Fn: c01Profile("hier-cas")},
 			{Name: "flat-ac", Weight: 2, Fn: c01Profile("flat-ac")},
+			{Name: "flat-cas-atomics", Weight: 1, Fn: withAtomicYields(c01Profile("flat-cas"))},
 		},
 		Components: map[string][]string{
 			"real": {"pkg/blobstore/configuration new_blob_access.go (W-config runs: the store is assembled by the unmodified NewBlobAccessFromConfiguration; top-level decorators, metrics wrappers, allocator collectors)", "pkg/blobstore/local: flat and hierarchical blob access, old/current/new map, volatile block list, both block allocators, hashing key-location map, both record arrays", "pkg/blobstore/buffer", "pkg/blobstore CAS/AC read buffer factories, validation caching factory", "pkg/digest"},
